@@ -1,50 +1,761 @@
-use serde::Deserialize;
-fn show(label: &str, s: &str) {
-    println!("--- {label}");
-    for l in s.split('\n') {
-        println!("    {}", l.escape_debug());
-    }
-}
-fn opts(r: usize) -> serde_saphyr::Options {
-    let mut o = serde_saphyr::Options::default();
-    #[allow(deprecated)]
-    {
-        o.crop_radius = r;
-    }
-    o
-}
-#[derive(Debug, Deserialize)]
-#[allow(dead_code)]
-struct S { a: String, #[serde(default)] f: Option<i32>, #[serde(default)] g: Vec<i32>, #[serde(default)] h: Option<Inner> }
-#[derive(Debug, Deserialize)]
-#[serde(deny_unknown_fields)]
-#[allow(dead_code)]
-struct Inner { k1: i32 }
+//! C17 — rendered error reports are terminal-safe, cropped, and show the right line.
+//!
+//! Invariant oracle on observed output. Every failing (input, target, options,
+//! entry point) case is rendered through every public rendering channel
+//! (`Display`, `render()`, `render_with_formatter` with the developer / default /
+//! user formatter, a custom formatter with a custom `Localizer`,
+//! `render_with_options` with `SnippetMode::{Auto,Off}`, and the miette adapter
+//! through `GraphicalReportHandler` without colour). On every rendering:
+//!   * no panic;
+//!   * no C0 (other than LF, TAB), DEL or C1 character;
+//!   * when a snippet window is present: <= 5 numbered lines, numbers within +-2 of
+//!     the location line, each line at most 2*radius+1 characters (+ ellipses), the
+//!     location line present, and the marker under the (sanitised) character at
+//!     (line, column) of the input, compared by display column;
+//!   * string entry points, snippets on, radius > 0, LF/CRLF text, location inside the
+//!     text  =>  a snippet window is present.
+//! The expected character comes from an independent model of the input text
+//! (`oracle::SrcModel`), never from the crate's own snippet code.
 
-fn main() {
-    let docs: Vec<(&str, String)> = vec![
-        ("alias", "a: &x zz\nb: 1\nc: 2\nd: 3\ne: 4\nf: *x\n".to_string()),
-        ("aliaswide", "a: [世界, &x zz]\nb: 1\nc: 2\nd: 3\ne: 4\nf: *x\n".to_string()),
-        ("aliastab", "a:\t&x zz\nb: 1\nc: 2\nd: 3\ne: 4\nf: *x\n".to_string()),
-        ("aliasseq", "a: &x zz\ng: [1, *x]\n".to_string()),
-        ("aliasinner", "a: &x {\"\\e[1mq\": 1}\nh: *x\n".to_string()),
-        ("aliasnear", "a: &x zz\nf: *x\n".to_string()),
-    ];
-    for (name, d) in &docs {
-        for r in [64usize, 1] {
-            let e = serde_saphyr::from_str_with_options::<S>(d, opts(r));
-            match e { Err(e) => {
-                show(&format!("{name} r={r} loc={:?}", e.location().map(|l| (l.line(), l.column()))), &e.to_string());
-                show("user", &e.render_with_formatter(&serde_saphyr::UserMessageFormatter));
-                show("off", &e.render_with_options(serde_saphyr::render_options!{snippets: serde_saphyr::SnippetMode::Off}));
-                let rep = serde_saphyr::miette::to_miette_report(&e, d, "f.yaml");
-                let mut out = String::new();
-                let h = miette::GraphicalReportHandler::new_themed(miette::GraphicalTheme::unicode_nocolor());
-                h.render_report(&mut out, rep.as_ref()).unwrap();
-                show("miette", &out);
+mod cases;
+mod oracle;
+mod workload;
+
+use cases::{Case, Entry};
+use oracle::{SrcModel, Verdict, WinCtx};
+use serde_json::json;
+use serde_saphyr::{
+    DefaultMessageFormatter, DeveloperMessageFormatter, Error, ExternalMessage, Localizer, Location, MessageFormatter,
+    RenderOptions, SnippetMode, UserMessageFormatter,
+};
+use std::borrow::Cow;
+use std::cell::Cell;
+use std::collections::BTreeMap;
+use vcore::obs::{catch, panic_site};
+use vcore::run::{Finish, Run, Tier, par_range};
+
+/// bytes kept by the reader's recent-bytes ring (src/ring_reader.rs RING_BUFFER_SIZE)
+const RING: usize = 3072;
+
+// ------------------------------------------------------------------ custom formatter / localizer
+
+#[derive(Default)]
+struct SpanishL {
+    calls: Cell<u32>,
+}
+impl SpanishL {
+    fn hit(&self, bit: u32) {
+        self.calls.set(self.calls.get() | (1 << bit));
+    }
+}
+impl Localizer for SpanishL {
+    fn attach_location<'a>(&self, base: Cow<'a, str>, loc: Location) -> Cow<'a, str> {
+        self.hit(0);
+        if loc == Location::UNKNOWN {
+            base
+        } else {
+            Cow::Owned(format!("{base} — línea {}, columna {}", loc.line(), loc.column()))
+        }
+    }
+    fn alias_defined_at(&self, d: Location) -> String {
+        self.hit(1);
+        format!(" (ancla en {}:{})", d.line(), d.column())
+    }
+    fn value_used_here(&self) -> Cow<'static, str> {
+        self.hit(2);
+        Cow::Borrowed("aquí se usa el valor")
+    }
+    fn defined_window(&self) -> Cow<'static, str> {
+        self.hit(3);
+        Cow::Borrowed("definido aquí")
+    }
+    fn value_comes_from_the_anchor(&self, def: Location) -> String {
+        self.hit(4);
+        format!("  | el valor viene del ancla en línea {} columna {}:", def.line(), def.column())
+    }
+    fn snippet_location_prefix(&self, loc: Location) -> String {
+        self.hit(5);
+        if loc == Location::UNKNOWN { String::new() } else { format!("línea {} columna {}", loc.line(), loc.column()) }
+    }
+    fn override_external_message<'a>(&self, msg: ExternalMessage<'a>) -> Option<Cow<'a, str>> {
+        self.hit(6);
+        Some(Cow::Owned(format!("analizador: {}", msg.original)))
+    }
+}
+
+struct SpanishF<'l> {
+    l: &'l SpanishL,
+}
+impl MessageFormatter for SpanishF<'_> {
+    fn localizer(&self) -> &dyn Localizer {
+        self.l
+    }
+    fn format_message<'a>(&self, err: &'a Error) -> Cow<'a, str> {
+        match err {
+            Error::Eof { .. } => Cow::Borrowed("fin inesperado de la entrada"),
+            Error::UnknownAnchor { .. } => Cow::Borrowed("referencia a un ancla desconocida"),
+            Error::WithSnippet { error, .. } => self.format_message(error),
+            _ => UserMessageFormatter.with_localizer(self.l).format_message(err),
+        }
+    }
+}
+
+// ------------------------------------------------------------------ classification
+
+fn reflect_class(e: &Error) -> String {
+    match e.without_snippet() {
+        Error::DuplicateMappingKey { .. } => "duplicate-key".into(),
+        Error::SerdeUnknownField { .. } => "unknown-field".into(),
+        Error::SerdeUnknownVariant { .. } => "unknown-variant".into(),
+        Error::TaggedEnumMismatch { .. } => "tag-mismatch".into(),
+        Error::QuotingRequired { .. } => "quoting-required".into(),
+        Error::ExternalMessage { .. } => "parser-message".into(),
+        Error::Message { .. } => "custom-message".into(),
+        Error::HookError { .. } => "hook-error".into(),
+        Error::SerdeVariantId { msg, .. } => {
+            if msg.starts_with("unknown variant") { "unknown-variant".into() } else { "variant-id".into() }
+        }
+        Error::SerdeInvalidType { .. } => "serde-invalid-type".into(),
+        Error::SerdeInvalidValue { .. } => "serde-invalid-value".into(),
+        Error::IOError { .. } => "io-error".into(),
+        // an alias error carries the rendered text of the error met while replaying the anchor:
+        // the reflecting class is the inner one
+        Error::AliasError { msg, .. } => {
+            if msg.starts_with("unknown field") {
+                "unknown-field".into()
+            } else if msg.starts_with("unknown variant") {
+                "unknown-variant".into()
+            } else if msg.starts_with("duplicate mapping key") {
+                "duplicate-key".into()
+            } else if msg.starts_with("bad value") {
+                "custom-message".into()
+            } else if msg.starts_with("tagged enum") {
+                "tag-mismatch".into()
+            } else {
+                "alias-error".into()
             }
-            Ok(v) => println!("{name}: OK {v:?}"),
+        }
+        other => format!("kind-{}", vcore::errs::kind(other)),
+    }
+}
+
+/// Does the message of this error carry text taken from the input?
+fn reflects_input(e: &Error) -> bool {
+    match e.without_snippet() {
+        Error::DuplicateMappingKey { key, .. } => key.is_some(),
+        Error::QuotingRequired { value, .. } => !value.is_empty(),
+        Error::SerdeUnknownField { .. }
+        | Error::SerdeUnknownVariant { .. }
+        | Error::SerdeVariantId { .. }
+        | Error::TaggedEnumMismatch { .. }
+        | Error::Message { .. }
+        | Error::SerdeInvalidType { .. }
+        | Error::SerdeInvalidValue { .. }
+        | Error::AliasError { .. } => true,
+        _ => false,
+    }
+}
+
+#[derive(Clone, Copy, PartialEq, Eq, Debug)]
+enum Chan {
+    /// may carry a snippet
+    Snippet,
+    /// snippets switched off by the caller
+    Plain,
+    Miette,
+}
+
+#[derive(Clone, Copy, PartialEq, Eq, Debug)]
+enum Fm {
+    Dev,
+    User,
+    Custom,
+    /// developer messages + custom localizer
+    DevL,
+}
+
+struct Rendering {
+    name: &'static str,
+    chan: Chan,
+    fm: Fm,
+    text: String,
+}
+
+fn miette_render(rep: &miette::Report, width: usize) -> String {
+    let h = miette::GraphicalReportHandler::new_themed(miette::GraphicalTheme::unicode_nocolor()).with_width(width);
+    let mut out = String::new();
+    let _ = h.render_report(&mut out, rep.as_ref());
+    out
+}
+
+/// All renderings of `e`; a panic in any of them is reported and that channel dropped.
+fn render_all(run: &Run, c: &Case, e: &Error, full: bool) -> Vec<Rendering> {
+    let l = SpanishL::default();
+    let custom = SpanishF { l: &l };
+    let dev = DefaultMessageFormatter;
+    let devl = dev.with_localizer(&l);
+    let user = UserMessageFormatter;
+    let src_text: String = c.text.clone().unwrap_or_else(|| String::from_utf8_lossy(&c.input).into_owned());
+    let mut out = Vec::new();
+    let mut push = |name: &'static str, chan: Chan, fm: Fm, f: &dyn Fn() -> String| {
+        run.eval();
+        match catch(f) {
+            Ok(text) => out.push(Rendering { name, chan, fm, text }),
+            Err(p) => report(run, &format!("C17:panic:{name}:{}", panic_site(&p)), c, format!("rendering channel {name} panicked: {p}"),
+            ),
+        }
+    };
+    let off = |f: &dyn MessageFormatter| {
+        let mut ro = RenderOptions::new(f);
+        ro.snippets = SnippetMode::Off;
+        e.render_with_options(ro)
+    };
+    push("display", Chan::Snippet, Fm::Dev, &|| e.to_string());
+    push("fmt-user", Chan::Snippet, Fm::User, &|| e.render_with_formatter(&user));
+    push("fmt-custom", Chan::Snippet, Fm::Custom, &|| e.render_with_formatter(&custom));
+    push("opt-off-default", Chan::Plain, Fm::Dev, &|| off(&dev));
+    push("miette-default", Chan::Miette, Fm::Dev, &|| {
+        miette_render(&serde_saphyr::miette::to_miette_report(e, &src_text, "input.yaml"), 80)
+    });
+    if full {
+        push("render", Chan::Snippet, Fm::Dev, &|| e.render());
+        push("fmt-developer", Chan::Snippet, Fm::Dev, &|| e.render_with_formatter(&DeveloperMessageFormatter::default()));
+        push("fmt-default", Chan::Snippet, Fm::Dev, &|| e.render_with_formatter(&dev));
+        push("fmt-default+localizer", Chan::Snippet, Fm::DevL, &|| e.render_with_formatter(&devl));
+        push("opt-auto-user", Chan::Snippet, Fm::User, &|| e.render_with_options(RenderOptions::new(&user)));
+        push("opt-off-user", Chan::Plain, Fm::User, &|| off(&user));
+        push("opt-off-custom", Chan::Plain, Fm::Custom, &|| off(&custom));
+        push("without-snippet-display", Chan::Plain, Fm::Dev, &|| e.without_snippet().to_string());
+        push("miette-user", Chan::Miette, Fm::User, &|| {
+            miette_render(
+                &serde_saphyr::miette::to_miette_report_with_formatter(e, &src_text, "input.yaml", &user),
+                400,
+            )
+        });
+        push("miette-custom", Chan::Miette, Fm::Custom, &|| {
+            miette_render(
+                &serde_saphyr::miette::to_miette_report_with_formatter(e, &src_text, "input.yaml", &custom),
+                80,
+            )
+        });
+    }
+    let calls = l.calls.get();
+    for (bit, name) in [
+        "attach_location",
+        "alias_defined_at",
+        "value_used_here",
+        "defined_window",
+        "value_comes_from_the_anchor",
+        "snippet_location_prefix",
+        "override_external_message",
+    ]
+    .iter()
+    .enumerate()
+    {
+        if calls & (1 << bit) != 0 {
+            run.observe("custom_localizer_methods_called", name);
+        }
+    }
+    out
+}
+
+fn message_for(e: &Error, fm: Fm) -> Result<String, String> {
+    let l = SpanishL::default();
+    let inner = e.without_snippet();
+    catch(|| match fm {
+        Fm::Dev => DefaultMessageFormatter.format_message(inner).into_owned(),
+        Fm::User => UserMessageFormatter.format_message(inner).into_owned(),
+        Fm::Custom => SpanishF { l: &l }.format_message(inner).into_owned(),
+        Fm::DevL => DefaultMessageFormatter.with_localizer(&l).format_message(inner).into_owned(),
+    })
+}
+
+// ------------------------------------------------------------------ reporting
+
+static SIG_SEEN: std::sync::LazyLock<std::sync::Mutex<BTreeMap<String, u64>>> =
+    std::sync::LazyLock::new(|| std::sync::Mutex::new(BTreeMap::new()));
+
+/// Every violating execution is counted; only the first few per signature are handed to
+/// `Run::violation` (which keeps witnesses and matches known findings) — its bookkeeping is
+/// linear in the number of calls.
+fn report(run: &Run, sig: &str, c: &Case, detail: String) {
+    let n = {
+        let mut m = SIG_SEEN.lock().unwrap();
+        let e = m.entry(sig.to_string()).or_insert(0);
+        *e += 1;
+        *e
+    };
+    if n <= 3
+        && let Ok(show) = std::env::var("C17_SHOW")
+        && sig.contains(&show)
+    {
+        // development aid: print the first witnesses of one signature
+        eprintln!("=== {sig}\n{}\n{detail}\n", c.to_json().to_string().chars().take(700).collect::<String>());
+    }
+    if n <= 40 {
+        run.violation(sig, c.to_json(), detail);
+    }
+}
+
+fn flush_sig_counts(run: &Run) {
+    for (k, v) in SIG_SEEN.lock().unwrap().iter() {
+        run.count(&format!("violating_executions/{k}"), *v);
+    }
+}
+
+// ------------------------------------------------------------------ one case
+
+struct Local {
+    counts: BTreeMap<String, u64>,
+}
+impl Local {
+    fn add(&mut self, k: &str) {
+        *self.counts.entry(k.to_string()).or_insert(0) += 1;
+    }
+}
+
+static SHARDS: std::sync::LazyLock<Vec<std::sync::Mutex<BTreeMap<String, u64>>>> =
+    std::sync::LazyLock::new(|| (0..64).map(|_| std::sync::Mutex::new(BTreeMap::new())).collect());
+static NEXT_SHARD: std::sync::atomic::AtomicUsize = std::sync::atomic::AtomicUsize::new(0);
+thread_local! {
+    static SHARD: usize = NEXT_SHARD.fetch_add(1, std::sync::atomic::Ordering::Relaxed) % 64;
+}
+
+/// Counters go to one of 64 mutex-protected shards (worker threads are short-lived
+/// scoped threads, so thread-locals cannot be collected at the end); merged once.
+fn flush_counts(run: &Run) {
+    for sh in SHARDS.iter() {
+        let mut m = sh.lock().unwrap();
+        for (k, v) in m.iter() {
+            run.count(k, *v);
+        }
+        m.clear();
+    }
+}
+
+fn check_case(run: &Run, c: &Case, full: bool) {
+    let mut lc = Local { counts: BTreeMap::new() };
+    let t0 = std::time::Instant::now();
+    check_case_inner(run, c, full, &mut lc);
+    // development aid only (never part of a verdict): name slow cases
+    if t0.elapsed().as_millis() > 500 && std::env::var_os("C17_TIME").is_some() {
+        eprintln!("slow case {} ms: {}", t0.elapsed().as_millis(), c.to_json().to_string().chars().take(400).collect::<String>());
+    }
+    let shard = SHARD.with(|s| *s);
+    let mut m = SHARDS[shard].lock().unwrap();
+    for (k, v) in lc.counts {
+        *m.entry(k).or_insert(0) += v;
+    }
+}
+
+fn check_case_inner(run: &Run, c: &Case, full: bool, lc: &mut Local) {
+    run.eval();
+    lc.add(&format!("cases/{}", c.family));
+    let e = match catch(|| cases::execute(c)) {
+        Err(p) => {
+            report(run, &format!("C17:panic:deserialize:{}", panic_site(&p)), c, format!("entry point panicked: {p}"),
+            );
+            return;
+        }
+        Ok(Ok(())) => {
+            lc.add("deserialized_ok");
+            return;
+        }
+        Ok(Err(e)) => e,
+    };
+    lc.add("errors_rendered");
+    let kind = vcore::errs::kind(&e);
+    run.observe("error_kinds", &kind);
+    run.observe("entry_points", c.entry.name());
+    let class = reflect_class(&e);
+    let wrapped = matches!(e, Error::WithSnippet { .. });
+    if wrapped {
+        lc.add("errors_with_snippet_wrapper");
+        if !c.with_snippet && c.radius > 0 {
+            // from_reader ignores Options::with_snippet (not part of the statement: observed only)
+            lc.add(&format!("observed/snippet_wrapper_although_with_snippet_false/{}", c.entry.name()));
+        }
+    }
+
+    let locs = e.locations();
+    let loc = e.location().filter(|l| *l != Location::UNKNOWN);
+    let dual = locs.filter(|l| {
+        l.reference_location != Location::UNKNOWN
+            && l.defined_location != Location::UNKNOWN
+            && l.reference_location != l.defined_location
+    });
+    let model: Option<SrcModel> = c.text.as_deref().map(SrcModel::new);
+
+    let renderings = render_all(run, c, &e, full);
+    let mut any_snippet = false;
+    let mut msg_cache: BTreeMap<u8, Result<String, String>> = BTreeMap::new();
+
+    for r in &renderings {
+        lc.add(&format!("renderings/{}", r.name));
+        // ---- terminal safety
+        let bad = oracle::forbidden_lines(&r.text);
+        let lines: Vec<&str> = if bad.is_empty() { Vec::new() } else { r.text.split('\n').collect() };
+        let has_numbered = |sep: char| r.text.split('\n').any(|l| oracle::is_numbered(l, sep));
+        let snippet_in_output = match r.chan {
+            Chan::Miette => has_numbered('│'),
+            _ => has_numbered('|'),
+        };
+        if r.chan == Chan::Snippet && snippet_in_output {
+            any_snippet = true;
+        }
+        if bad.is_empty() {
+            lc.add("held/terminal-safe");
+        }
+        let mut reported = std::collections::BTreeSet::new();
+        for (li, ch) in bad {
+            let sep = if r.chan == Chan::Miette { '│' } else { '|' };
+            let in_source = oracle::is_numbered(lines[li], sep);
+            let suffix = match r.chan {
+                Chan::Miette => ":miette",
+                Chan::Plain => ":plain",
+                Chan::Snippet => {
+                    if snippet_in_output {
+                        ""
+                    } else {
+                        ":plain"
+                    }
+                }
+            };
+            let sig = if in_source {
+                format!("C17:control-char-in-source-line{suffix}")
+            } else {
+                format!("C17:control-char-reflected:{class}{suffix}")
+            };
+            if reported.insert(sig.clone()) {
+                report(run, &sig, c, format!(
+                        "channel {} ({}): U+{:04X} in output line {:?}",
+                        r.name,
+                        kind,
+                        ch as u32,
+                        lines[li].chars().take(200).collect::<String>()
+                    ),
+                );
+            }
+        }
+
+        // ---- structure
+        match r.chan {
+            Chan::Plain => {}
+            Chan::Miette => {
+                if let (Some(m), Some(l)) = (&model, loc) {
+                    let wins = oracle::parse_miette(&r.text);
+                    if wins.is_empty() {
+                        lc.add("miette/no-source-window");
+                        continue;
+                    }
+                    let msg = msg_cache.entry(r.fm as u8).or_insert_with(|| message_for(&e, r.fm));
+                    if !matches!(msg, Ok(s) if !s.contains('\n')) {
+                        lc.add("unspecified/miette/multiline-message");
+                        continue;
+                    }
+                    if c.enc != "utf8" {
+                        lc.add("unspecified/miette/non-utf8-source");
+                        continue;
+                    }
+                    let (line, col) = match dual {
+                        Some(d) => (d.reference_location.line(), d.reference_location.column()),
+                        None => (l.line(), l.column()),
+                    };
+                    verdicts(run, c, lc, r, &kind, vec![oracle::check_miette_marker(&wins, m, line, col)]);
+                }
+            }
+            Chan::Snippet => {
+                let l10n_custom = SpanishL::default();
+                let intro: Option<String> = dual.map(|d| match r.fm {
+                    Fm::Custom | Fm::DevL => l10n_custom.value_comes_from_the_anchor(d.defined_location),
+                    _ => serde_saphyr::DEFAULT_ENGLISH_LOCALIZER.value_comes_from_the_anchor(d.defined_location),
+                });
+                let msg = msg_cache.entry(r.fm as u8).or_insert_with(|| message_for(&e, r.fm));
+                let single_line_msg = matches!(msg, Ok(s) if !s.contains('\n'));
+                if let Err(p) = msg {
+                    report(run, &format!("C17:panic:format_message:{}", panic_site(p)), c, format!("format_message panicked: {p}"),
+                    );
+                }
+                if !single_line_msg {
+                    // a reflected line break lets message text imitate snippet lines: layout not parseable
+                    lc.add("unspecified/multiline-message");
+                    continue;
+                }
+                let wins = oracle::parse_windows(&r.text, intro.as_deref());
+                let (Some(m), Some(l)) = (&model, loc) else {
+                    if wins.iter().any(|w| !w.is_empty()) {
+                        lc.add("unspecified/snippet-without-text-model-or-location");
+                    }
+                    continue;
+                };
+                let (pl, pc) = match dual {
+                    Some(d) => (d.reference_location.line(), d.reference_location.column()),
+                    None => (l.line(), l.column()),
+                };
+                let ring = !c.entry.is_string() && c.input.len() > RING;
+                let primary: &[oracle::NumLine] = wins.first().map(|w| w.as_slice()).unwrap_or(&[]);
+                // -- presence
+                let must = c.entry.is_string()
+                    && c.with_snippet
+                    && c.radius > 0
+                    && c.enc == "utf8"
+                    && !m.lone_cr
+                    && !m.inner_bom
+                    && m.expect_at(pl, pc) != oracle::Expect::Outside;
+                if primary.is_empty() {
+                    if must {
+                        report(run, &format!("C17:snippet-missing:{}", c.entry.name()), c, format!(
+                                "channel {}: {} at {}:{} inside the text, snippets on, radius {}, but no snippet window in {:?}",
+                                r.name,
+                                kind,
+                                pl,
+                                pc,
+                                c.radius,
+                                r.text.chars().take(300).collect::<String>()
+                            ),
+                        );
+                    } else {
+                        lc.add("no-snippet/not-required");
+                    }
+                    continue;
+                }
+                if must {
+                    lc.add("held/snippet-present-when-required");
+                }
+                if c.radius == 0 {
+                    lc.add("observed/snippet-with-radius-0");
+                }
+                if c.enc != "utf8" {
+                    // the ring holds undecoded bytes: give the whole family one signature
+                    let vs = oracle::check_window(
+                        primary,
+                        &WinCtx {
+                            src: m,
+                            line: pl,
+                            col: pc,
+                            radius: c.radius,
+                            raw_window: false,
+                            ring_may_have_evicted: ring,
+                            reader: !c.entry.is_string(),
+                            name: "primary-window",
+                        },
+                    );
+                    let bad: Vec<String> = vs
+                        .iter()
+                        .filter_map(|v| if let Verdict::Violation(s, d) = v { Some(format!("{s}: {d}")) } else { None })
+                        .collect();
+                    if bad.is_empty() {
+                        lc.add("held/non-utf8-reader-window");
+                    } else {
+                        report(run, &format!("C17:reader-snippet-from-undecoded-bytes:{}", c.enc), c, format!("channel {}: {}\n--- rendering ---\n{}", r.name, bad.join(" | "), r.text),
+                        );
+                    }
+                    continue;
+                }
+                let vs = oracle::check_window(
+                    primary,
+                    &WinCtx {
+                        src: m,
+                        line: pl,
+                        col: pc,
+                        radius: c.radius,
+                        raw_window: false,
+                        ring_may_have_evicted: ring,
+                            reader: !c.entry.is_string(),
+                        name: "primary-window",
+                    },
+                );
+                verdicts(run, c, lc, r, &kind, vs);
+                if let (Some(d), Some(sec)) = (dual, wins.get(1)) {
+                    if sec.is_empty() {
+                        lc.add("secondary-window/absent");
+                    } else {
+                        lc.add("secondary-window/present");
+                        let vs = oracle::check_window(
+                            sec,
+                            &WinCtx {
+                                src: m,
+                                line: d.defined_location.line(),
+                                col: d.defined_location.column(),
+                                radius: c.radius,
+                                raw_window: true,
+                                ring_may_have_evicted: ring,
+                            reader: !c.entry.is_string(),
+                                name: "defined-here-window",
+                            },
+                        );
+                        verdicts(run, c, lc, r, &kind, vs);
+                    }
+                }
             }
         }
     }
+
+    if any_snippet || reflects_input(&e) {
+        run.nontrivial(c.hash());
+        lc.add("nontrivial_cases");
+        if any_snippet {
+            lc.add(&format!("cases_with_snippet/{}", c.entry.name()));
+        }
+        if reflects_input(&e) {
+            lc.add(&format!("cases_reflecting_input/{class}"));
+        }
+        if c.hash() % 1499 == 0 {
+            run.sample(|| {
+                json!({
+                    "input": String::from_utf8_lossy(&c.input).chars().take(400).collect::<String>(),
+                    "target": c.target, "entry": c.entry.name(), "radius": c.radius, "with_snippet": c.with_snippet,
+                    "kind": kind,
+                    "display": renderings.first().map(|r| r.text.chars().take(600).collect::<String>()),
+                })
+            });
+        }
+    }
+}
+
+fn verdicts(run: &Run, c: &Case, lc: &mut Local, r: &Rendering, kind: &str, vs: Vec<Verdict>) {
+    for v in vs {
+        match v {
+            Verdict::Held(what) => lc.add(&format!("held/{what}")),
+            Verdict::Unspecified(what) => lc.add(&format!("unspecified/{what}")),
+            Verdict::Violation(sig, detail) => {
+                let sig = if !c.entry.is_string() && !sig.contains("defined-here") {
+                    format!("C17:{sig}:reader")
+                } else {
+                    format!("C17:{sig}")
+                };
+                report(run, &sig, c, format!(
+                        "channel {} ({kind}, radius {}): {detail}\n--- rendering ---\n{}",
+                        r.name,
+                        c.radius,
+                        r.text.chars().take(1500).collect::<String>()
+                    ),
+                );
+            }
+        }
+    }
+}
+
+// ------------------------------------------------------------------ main
+
+fn main() {
+    let run = Run::from_args("C17");
+    if let Some(rep) = run.is_replay() {
+        match Case::from_json(&rep["case"]) {
+            Some(c) => {
+                // development aid: C17_LOOP=n repeats the case and prints the resident set
+                let n: usize = std::env::var("C17_LOOP").ok().and_then(|s| s.parse().ok()).unwrap_or(1);
+                for i in 0..n {
+                    check_case(&run, &c, true);
+                    if n > 1 && i % (n / 10).max(1) == 0 {
+                        let statm = std::fs::read_to_string("/proc/self/statm").unwrap_or_default();
+                        eprintln!("iter {i}: rss pages {}", statm.split_whitespace().nth(1).unwrap_or("?"));
+                    }
+                }
+            }
+            None => {
+                eprintln!("harness error: replay file has no usable case");
+                std::process::exit(2);
+            }
+        }
+        flush_counts(&run);
+        flush_sig_counts(&run);
+        run.finish(Finish::new("replay"));
+    }
+    let tier = run.tier;
+    // development aid only: C17_ONLY=w1,w3 runs a subset of the workload families
+    let only = std::env::var("C17_ONLY").ok();
+    let on = |w: &str| only.as_deref().map(|o| o.split(',').any(|x| x == w)).unwrap_or(true);
+
+    // ---- W1: exhaustive token strings x targets (failing pairs only proceed to rendering)
+    let max_len = tier.pick(3, 4);
+    let toks = workload::TOKENS;
+    let mut total = 0usize;
+    let mut pow = 1usize;
+    for _ in 0..max_len {
+        pow *= toks.len();
+        total += pow;
+    }
+    let w1_targets: &[&'static str] = &["MapI32", "Strict", "En", "VecString", "TupU8Str", "String", "Val"];
+    par_range(if on("w1") { total } else { 0 }, |i| {
+        let s = workload::token_string(i);
+        let h = vcore::fnv(s.as_bytes());
+        for (ti, t) in w1_targets.iter().enumerate() {
+            let full = (h.wrapping_add(ti as u64)) % 8 == 0;
+            let mut c = Case::new(&s, t, "tokens");
+            check_case(&run, &c, full);
+            // one more configuration per pair, chosen by a hash of the pair (seed-independent)
+            let (radius, snip, entry) = workload::alt_config(h.wrapping_mul(31).wrapping_add(ti as u64));
+            c.radius = radius;
+            c.with_snippet = snip;
+            c.entry = entry;
+            c.family = "tokens-alt";
+            check_case(&run, &c, full);
+        }
+    });
+
+    // ---- W2: reflected control characters (exhaustive over the template grid)
+    let w2 = workload::reflect_cases(tier);
+    run.count("w2_reflect_grid", w2.len() as u64);
+    par_range(if on("w2") { w2.len() } else { 0 }, |i| check_case(&run, &w2[i], true));
+
+    // ---- W3: geometry (long lines, wide / combining / zero-width around the error column)
+    let w3n = if on("w3") { workload::geometry_count(tier) } else { 0 };
+    par_range(w3n, |i| {
+        for c in workload::geometry_case(tier, run.seed, i) {
+            check_case(&run, &c, true);
+        }
+    });
+
+    // ---- W3b: two-window (alias) geometry: the hand-written "defined here" window
+    let w3bn = if on("w3b") { tier.pick(12_000, 80_000) } else { 0 };
+    par_range(w3bn, |i| {
+        for c in workload::alias_case(run.seed, i) {
+            check_case(&run, &c, i % 2 == 0);
+        }
+    });
+
+    // ---- W4: reader ring (inputs around and beyond the ring size), W5: UTF-16 through the reader
+    let w4n = if on("w4") { tier.pick(5000, 40_000) } else { 0 };
+    par_range(w4n, |i| {
+        for c in workload::ring_case(run.seed, i) {
+            check_case(&run, &c, i % 4 == 0);
+        }
+    });
+    if on("w5") {
+        for c in workload::utf16_cases() {
+            check_case(&run, &c, true);
+        }
+    }
+
+    // ---- W6: seeded mutations of all of the above
+    let w6n = if on("w6") { tier.pick(100_000, 800_000) } else { 0 };
+    par_range(w6n, |i| {
+        if let Some(c) = workload::mutated_case(tier, run.seed, i, &w2) {
+            check_case(&run, &c, i % 4 == 0);
+        }
+    });
+    flush_counts(&run);
+    flush_sig_counts(&run);
+    if only.is_some() {
+        run.note("C17_ONLY set: partial workload, development run");
+    }
+
+    let scope = format!(
+        "all {total} non-empty strings of <= {max_len} tokens over the 28-token alphabet of DESIGN C01 x 7 targets x (default options via from_str + one hash-chosen (radius, with_snippet, entry point) configuration); the full reflected-control-character template grid ({} cases: payloads x spellings x templates x context x LF/CRLF x (radius, snippet, entry) configurations)",
+        w2.len()
+    );
+    let fin = Finish::new(
+        "a case (input, target, entry point, radius, with_snippet, flags) is non-trivial when at least one rendering of its error contains a snippet window or the error's message carries text taken from the input (duplicate key, unknown field/variant, tag mismatch, quoting-required value, serde invalid type/value, custom message, alias error); distinct by hash of the whole case",
+    )
+    .exhaustive(scope)
+    .assume("the location carried by the error is taken as given (C16 judges it); C17 checks the marker against that location")
+    .assume("lines are LF / CRLF terminated; inputs with a CR-only break, a BOM inside the text, a location outside the text, a multi-line message, or a reader window that may start inside a line are counted as unspecified for the marker check")
+    .assume("context lines lying wholly left of the crop window are left uncropped by design (src/de/snippet.rs crop_line_by_cols); counted as unspecified")
+    .min_nontrivial(if tier == Tier::Quick { 20_000 } else { 200_000 })
+    .tool("annotate-snippets 0.12.12 layout (Renderer::plain, DecorStyle::Ascii)")
+    .tool("miette 7.6 GraphicalReportHandler, unicode theme without colour")
+    .tool("unicode-width 0.2");
+    let _ = Entry::Str;
+    run.finish(fin);
 }
